@@ -32,6 +32,7 @@ EXPLANATION = (
     " The test separating 'undefined' from 'integer' in the optional-int constructor is evaluated for None, several ints, a bool and a non-builtin integer object; payload/segment buffers are created per call. C15.Z: no truthiness test on an int-typed value."
     ' C15.W: no raising guard in a message / OptionalInt constructor rejects a value inside the declared width of the field it is stored in (evaluated at the ends of the range and next to every compared constant). C15.K: memoisation keys cover the arguments.'
     ' C15.H executes OptionalInt.__init__ abstractly for None and several integer objects: the fields it leaves behind are the encoding.'
+    ' C15.S executes every fixed-layout constructor with a distinct value per parameter (super().__init__ of a ctypes structure fills the declared fields in order); the optional-int accessor is found by evaluating every parameterless method for both discriminant values.'
 )
 LEVEL_TEXT = (
     "Static analysis, partial: structural round-trip argument for all 9 message classes (tables, offsets, element types, "
